@@ -149,8 +149,10 @@ impl Uplinks {
             write_queue,
             ..
         } = self;
-        if let Some((mut writer, mut buffer)) = writer.take() {
-            let action = write_to_buffer(event, &mut buffer)?;
+        if let Some((_, buffer)) = writer.as_mut() {
+            // Fill the buffer before the writer is lent out: a rejected event must not lose the writer.
+            let action = write_to_buffer(event, buffer)?;
+            let (mut writer, buffer) = writer.take().expect("The writer is present.");
             let lane_name = registry.name_for(lane_id).expect(UNREGISTERED_LANE);
             writer.update_lane(lane_name);
             Ok(Some(WriteTask::new(writer, buffer, action)))
